@@ -5,7 +5,8 @@
     their round-trip laws (and, for C03, that the symbol decoder returns the announced count) are assumed. *)
 From Coq Require Import ZifyBool Znumtheory.
 From Draco Require Import Base.Codec Base.Bits Base.Float32 Gen.Constants Model.Varint Model.Wrap Model.Quantize
-  Model.SeqAttr Model.SeqCodec Proofs.Varint_proofs Proofs.Wrap_proofs Proofs.Quantize_proofs Proofs.SeqAttr_proofs.
+  Model.Octahedron Model.Normals Model.SeqAttr Model.SeqCodec Proofs.Varint_proofs Proofs.Wrap_proofs Proofs.Quantize_proofs
+  Proofs.Octahedron_proofs Proofs.Normals_proofs Proofs.SeqAttr_proofs.
 Local Open Scope Z_scope.
 
 Lemma Some_inj {A} (a b : A) : Some a = Some b -> a = b.
@@ -317,7 +318,16 @@ Proof. intros. rewrite Z2Nat.id by lia. change 256 with (2 ^ 8). rewrite <- Z.po
 
 Definition att_nc (a : attribute) : nat := Z.to_nat (ad_nc (a_desc a)).
 Definition att_opts (a : attribute) : option int_opts :=
-  match a_kind a with KGeneric => None | KInteger o => Some o | KQuant _ _ o => Some o end.
+  match a_kind a with KGeneric => None | KInteger o => Some o | KQuant _ _ o => Some o | KNormal _ o => Some o end.
+
+(** the octahedral (s,t) points the normal encoder hands to the integer coder (PrepareValues) *)
+Definition normal_pts (a : attribute) : option (list pt) :=
+  match a_kind a with
+  | KNormal q _ =>
+      if negb (ad_nc (a_desc a) =? 3) then None else
+      match oct_generate_portable q (map vec3_of_row (a_rows a)) with Ok pts => Some pts | _ => None end
+  | _ => None
+  end.
 
 (** the int32 rows the encoder hands to the integer coder (EncodePortableAttribute) *)
 Definition portable_rows (a : attribute) : option (list (list Z)) :=
@@ -332,6 +342,7 @@ Definition portable_rows (a : attribute) : option (list (list Z)) :=
                   end
       | None => None
       end
+  | KNormal _ _ => match normal_pts a with Some pts => Some (map row_of_pt pts) | None => None end
   end.
 
 (** what DecodePortableAttribute leaves for the attribute *)
@@ -358,16 +369,25 @@ Definition expected_rows (a : attribute) : list (list Z) :=
                   end
       | None => []
       end
+  | KNormal q _ =>
+      match normal_pts a with
+      | Some pts => match oct_inverse_transform q pts with Ok vs => map vec3_bits vs | _ => [] end
+      | None => []
+      end
   | _ => a_rows a
   end.
 Definition expected_att (a : attribute) : dec_att :=
-  {| da_desc := a_desc a; da_kind_id := kind_id (a_kind a); da_rows := expected_rows a; da_tdata := None |}.
+  {| da_desc := a_desc a; da_kind_id := kind_id (a_kind a); da_rows := expected_rows a; da_tdata := None; da_oct := None |}.
 
 (** shape of an attribute with [np] points *)
 Definition att_ok (np : nat) (a : attribute) : Prop :=
   desc_ok (a_desc a) /\ kind_matches (a_desc a) (a_kind a) = true /\ length (a_rows a) = np /\
   Forall (fun r => length r = att_nc a /\ Forall (fun v => 0 <= v < 2 ^ (8 * dt_len (ad_dt (a_desc a)))) r) (a_rows a) /\
-  match a_kind a with KQuant _ (Some (org, _)) _ => length org = att_nc a | _ => True end.
+  match a_kind a with
+  | KQuant _ (Some (org, _)) _ => length org = att_nc a
+  | KNormal _ _ => Forall (fun r => fin3 (vec3_of_row r)) (a_rows a)   (* finite input: C07's domain (an Inf makes the conversion undefined) *)
+  | _ => True
+  end.
 
 (** quantization helper facts *)
 Lemma Forall2_len {A B} (P : A -> B -> Prop) l l' : Forall2 P l l' -> length l = length l'.
@@ -488,7 +508,7 @@ Lemma quant_params_ok np a p : att_ok np a -> quant_params a = Some p ->
   quantization_valid (qp_bits p) = true /\ length (qp_min p) = att_nc a.
 Proof.
   intros (_ & _ & _ & Hrows & Hex) H. unfold quant_params in H.
-  destruct (a_kind a) as [|o|q [[org rg]|] o]; try discriminate.
+  destruct (a_kind a) as [|o|q [[org rg]|] o|q o]; try discriminate.
   - unfold set_parameters in H. destruct (quantization_valid q) eqn:V; [|discriminate]. injection H as <-.
     cbn [qp_bits qp_min]. rewrite map_length. split; [exact V|exact Hex].
   - unfold compute_parameters in H. destruct (quantization_valid q) eqn:V; [|discriminate].
@@ -510,7 +530,39 @@ Proof.
   constructor; [exists x; exact E|apply (IH y); reflexivity].
 Qed.
 
+(** quantized normals: what PrepareValues produces for finite input (C07) *)
+Lemma pt_row_id p : pt_of_row (row_of_pt p) = p.
+Proof. destruct p; reflexivity. Qed.
+
+Lemma generate_portable_canonical q rows pts : Forall fin3 rows -> oct_generate_portable q rows = Ok pts ->
+  exists b, set_quantization_bits q = Some b /\ length pts = length rows /\ Forall (canonical (ob_center b)) pts.
+Proof.
+  unfold oct_generate_portable. intros HF H. destruct (set_quantization_bits q) as [b|] eqn:Hb; [|discriminate].
+  exists b. split; [reflexivity|]. apply rmap_Forall2 in H. split; [symmetry; apply (Forall2_len _ _ _ H)|].
+  induction H as [|v p rows pts Hvp _ IH]; [constructor|].
+  apply Forall_cons_iff in HF. destruct HF as [Hv HF]. constructor; [|apply IH; exact HF].
+  destruct (encoder_total q b v Hb Hv) as (p' & Ep & Hc). rewrite Hvp in Ep. injection Ep as <-. exact Hc.
+Qed.
+
+Lemma normal_pts_ok np a pts : att_ok np a -> normal_pts a = Some pts ->
+  exists q o b, a_kind a = KNormal q o /\ ad_nc (a_desc a) = 3 /\ ad_dt (a_desc a) = DT_FLOAT32_ /\
+    oct_generate_portable q (map vec3_of_row (a_rows a)) = Ok pts /\
+    set_quantization_bits q = Some b /\ length pts = np /\ Forall (canonical (ob_center b)) pts.
+Proof.
+  intros (Hd & Hk & Hn & Hrows & Hex) H. unfold normal_pts in H.
+  destruct (a_kind a) as [|o|q ex o|q o] eqn:Ek; try discriminate.
+  destruct (ad_nc (a_desc a) =? 3) eqn:Enc; [|discriminate]. cbn [negb] in H.
+  destruct (oct_generate_portable q _) as [pts'| |] eqn:Eg; try discriminate. injection H as <-.
+  assert (HF : Forall fin3 (map vec3_of_row (a_rows a))).
+  { apply Forall_forall. intros v Hv. apply in_map_iff in Hv. destruct Hv as (r & <- & Hr).
+    rewrite Forall_forall in Hex. apply (Hex r Hr). }
+  destruct (generate_portable_canonical q _ _ HF Eg) as (b & Hb & Hl & Hc).
+  exists q, o, b. cbn [kind_matches] in Hk. rewrite map_length in Hl.
+  split; [reflexivity|]. split; [lia|]. split; [lia|]. split; [exact Eg|]. split; [exact Hb|]. split; [lia|exact Hc].
+Qed.
+
 Section Atts.
+  Variable ver : Z.     (* bitstream version the decoder runs with: the round trips hold for every one *)
   Variable enc_syms : Z -> Z -> Z -> list Z -> option bytes.
   Variable dec_syms : nat -> nat -> bytes -> option (list Z * bytes).
   Variable sym_guard' : Z -> list Z -> Prop.
@@ -521,30 +573,35 @@ Section Atts.
       passed to it (only when the entropy coder is used).  The delta range condition is not needed: since the
       fix of D7 a successful encode implies it. *)
   Definition att_int_ok (a : attribute) : Prop :=
-    forall o rows, att_opts a = Some o -> portable_rows a = Some rows -> io_builtin o = true ->
-      sym_guard' (Z.of_nat (att_nc a)) (int_block_syms o (att_nc a) rows).
+    match a_kind a with
+    | KNormal q o => forall pts, normal_pts a = Some pts -> io_builtin o = true -> sym_guard' 2 (norm_block_syms o q pts)
+    | _ => forall o rows, att_opts a = Some o -> portable_rows a = Some rows -> io_builtin o = true ->
+             sym_guard' (Z.of_nat (att_nc a)) (int_block_syms o (att_nc a) rows)
+    end.
 
   Lemma enc_values_eq a :
     enc_values enc_syms a =
       match a_kind a with
       | KGeneric => Some (enc_generic (Z.to_nat (dt_len (ad_dt (a_desc a)))) (a_rows a))
+      | KNormal q o => match normal_pts a with Some pts => enc_norm_block enc_syms o q pts | None => None end
       | _ => match att_opts a, portable_rows a with
              | Some o, Some rows => enc_int_block enc_syms o (att_nc a) rows
              | _, _ => None
              end
       end.
   Proof.
-    unfold enc_values, att_opts, portable_rows, att_nc. destruct (a_kind a) as [|o|q ex o]; [reflexivity| |].
+    unfold enc_values, att_opts, portable_rows, normal_pts, att_nc. destruct (a_kind a) as [|o|q ex o|q o]; [reflexivity| | |].
     - destruct (omap _ (a_rows a)); reflexivity.
     - destruct (quant_params a); [|reflexivity]. destruct (generate_portable _ _); reflexivity.
+    - destruct (negb _); [reflexivity|]. destruct (oct_generate_portable _ _); reflexivity.
   Qed.
 
   (** the portable rows are int32 and keep the shape *)
-  Lemma portable_rows_shape np a rows : att_ok np a -> portable_rows a = Some rows ->
+  Lemma portable_rows_shape np a rows : att_ok np a -> (forall q o, a_kind a <> KNormal q o) -> portable_rows a = Some rows ->
     length rows = np /\ Forall (fun r => length r = att_nc a /\ Forall i32 r) rows.
   Proof.
-    intros Hok H. pose proof Hok as (Hd & Hk & Hn & Hrows & Hex). unfold portable_rows in H.
-    destruct (a_kind a) as [|o|q ex o] eqn:Ek; [discriminate| |].
+    intros Hok Hnn H. pose proof Hok as (Hd & Hk & Hn & Hrows & Hex). unfold portable_rows in H.
+    destruct (a_kind a) as [|o|q ex o|q o] eqn:Ek; [discriminate| | |exfalso; apply (Hnn q o); reflexivity].
     - cbn [kind_matches] in Hk. apply dt_is_int_spec in Hk.
       destruct (int32_rows_roundtrip _ (att_nc a) Hk _ _ Hrows H) as (_ & H2 & H3). split; [lia|exact H2].
     - destruct (quant_params a) as [p|] eqn:Ep; [|discriminate].
@@ -564,12 +621,12 @@ Section Atts.
   (** value block of one attribute *)
   Theorem values_roundtrip np a bs rest : att_ok np a -> ((0 < np)%nat \/ a_kind a = KGeneric) -> att_int_ok a ->
     enc_values enc_syms a = Some bs ->
-    dec_values dec_syms np (a_desc a) (kind_id (a_kind a)) (bs ++ rest) = Some (dec_rows a, rest).
+    dec_values dec_syms ver np (a_desc a) (kind_id (a_kind a)) (bs ++ rest) = Some (dec_rows a, rest).
   Proof.
     intros Hok Hnp Hint He. pose proof Hok as (Hd & Hk & Hn & Hrows & Hex).
     pose proof Hd as (_ & Hdt & Hnc & _).
     rewrite enc_values_eq in He. unfold dec_values, dec_rows. fold (att_nc a).
-    destruct (a_kind a) as [|o|q ex o] eqn:Ek.
+    destruct (a_kind a) as [|o|q ex o|q o] eqn:Ek.
     - injection He as <-. change (kind_id KGeneric =? SEQUENTIAL_ATTRIBUTE_ENCODER_GENERIC_) with true. cbv iota.
       rewrite <- Hn. apply generic_roundtrip.
       rewrite pow256 by (pose proof (dt_len_range _ Hdt); lia). exact Hrows.
@@ -577,7 +634,8 @@ Section Atts.
       change (kind_id (KInteger o) =? SEQUENTIAL_ATTRIBUTE_ENCODER_INTEGER_) with true. cbv iota.
       unfold att_opts in He, Hint. unfold att_int_ok, att_opts in Hint. rewrite Ek in He, Hint.
       destruct (portable_rows a) as [rows|] eqn:Ep; [|discriminate].
-      destruct (portable_rows_shape np a rows Hok Ep) as [Hl Hsh].
+      assert (Hnn : forall q' o', a_kind a <> KNormal q' o') by (intros q' o' E; rewrite Ek in E; discriminate).
+      destruct (portable_rows_shape np a rows Hok Hnn Ep) as [Hl Hsh].
       pose proof (Hint o rows eq_refl eq_refl) as Hg.
       rewrite <- Hl. apply (int_block_roundtrip enc_syms dec_syms sym_guard' sym_law o (att_nc a) rows bs rest);
         try assumption.
@@ -589,12 +647,28 @@ Section Atts.
       cbn [kind_matches] in Hk. destruct (ad_dt (a_desc a) =? DT_FLOAT32_) eqn:Edt; [|cbn in Hk; discriminate].
       unfold att_int_ok, att_opts in Hint. unfold att_opts in He. rewrite Ek in He, Hint.
       destruct (portable_rows a) as [rows|] eqn:Ep; [|discriminate].
-      destruct (portable_rows_shape np a rows Hok Ep) as [Hl Hsh].
+      assert (Hnn : forall q' o', a_kind a <> KNormal q' o') by (intros q' o' E; rewrite Ek in E; discriminate).
+      destruct (portable_rows_shape np a rows Hok Hnn Ep) as [Hl Hsh].
       pose proof (Hint o rows eq_refl eq_refl) as Hg.
       rewrite <- Hl. apply (int_block_roundtrip enc_syms dec_syms sym_guard' sym_law o (att_nc a) rows bs rest);
         try assumption.
       + unfold att_nc. lia.
       + destruct Hnp as [Hnp|Hnp]; [|congruence]. destruct rows; [cbn in Hl; lia|congruence].
+    - (* quantized normals *)
+      change (kind_id (KNormal q o) =? SEQUENTIAL_ATTRIBUTE_ENCODER_GENERIC_) with false.
+      change (kind_id (KNormal q o) =? SEQUENTIAL_ATTRIBUTE_ENCODER_INTEGER_) with false.
+      change (kind_id (KNormal q o) =? SEQUENTIAL_ATTRIBUTE_ENCODER_QUANTIZATION_) with false.
+      change (kind_id (KNormal q o) =? SEQUENTIAL_ATTRIBUTE_ENCODER_NORMALS_) with true. cbv iota.
+      unfold att_int_ok in Hint. rewrite Ek in Hint.
+      destruct (normal_pts a) as [pts|] eqn:Ep; [|discriminate].
+      destruct (normal_pts_ok np a pts Hok Ep) as (q' & o' & b & Ek' & Hnc3 & Hdt32 & Eg & Hb & Hl & Hcan).
+      rewrite Ek in Ek'. injection Ek' as <- <-.
+      rewrite Hnc3, Hdt32. change ((3 =? 3) && (DT_FLOAT32_ =? DT_FLOAT32_)) with true. cbv iota.
+      unfold portable_rows. rewrite Ek, Ep.
+      rewrite <- Hl.
+      rewrite (norm_block_roundtrip enc_syms dec_syms sym_guard' sym_law ver o q b pts bs rest); try assumption; [reflexivity| |].
+      + destruct Hnp as [Hnp|Hnp]; [|congruence]. destruct pts; [cbn in Hl; lia|congruence].
+      + apply Hint. reflexivity.
   Qed.
 
   (** transform block + conversion to the original format, nothing skipped *)
@@ -605,7 +679,7 @@ Section Atts.
     intros Hok Hv He. pose proof Hok as (Hd & Hk & Hn & Hrows & Hex).
     rewrite enc_values_eq in Hv.
     unfold finish_att, enc_transform_data, expected_att, expected_rows, dec_rows, att_opts in *. cbv beta.
-    destruct (a_kind a) as [|o|q ex o] eqn:Ek.
+    destruct (a_kind a) as [|o|q ex o|q o] eqn:Ek.
     - injection He as <-. reflexivity.
     - injection He as <-.
       change (kind_id (KInteger o) =? SEQUENTIAL_ATTRIBUTE_ENCODER_GENERIC_) with false.
@@ -615,7 +689,8 @@ Section Atts.
       unfold portable_rows in Ep. rewrite Ek in Ep.
       destruct (int32_rows_roundtrip _ (att_nc a) Hk _ _ Hrows Ep) as (H1 & _). rewrite H1. reflexivity.
     - change (kind_id (KQuant q ex o) =? SEQUENTIAL_ATTRIBUTE_ENCODER_GENERIC_) with false.
-      change (kind_id (KQuant q ex o) =? SEQUENTIAL_ATTRIBUTE_ENCODER_INTEGER_) with false. cbv iota.
+      change (kind_id (KQuant q ex o) =? SEQUENTIAL_ATTRIBUTE_ENCODER_INTEGER_) with false.
+      change (kind_id (KQuant q ex o) =? SEQUENTIAL_ATTRIBUTE_ENCODER_NORMALS_) with false. cbv iota.
       unfold portable_rows in *. rewrite Ek in *.
       destruct (quant_params a) as [p|] eqn:Eq; [|discriminate].
       destruct (quant_params_ok np a p Hok Eq) as [V Hlen].
@@ -623,6 +698,20 @@ Section Atts.
       fold (att_nc a). rewrite <- Hlen. rewrite (params_roundtrip p ts rest V He).
       rewrite words_back by (apply (generate_portable_words _ _ _ Eg)).
       destruct (inverse_transform_ok p _ words V Eg) as (fr & Ei & _). rewrite Ei. reflexivity.
+    - (* quantized normals: one byte of quantization bits, then InverseTransformAttribute on the (s,t) points *)
+      change (kind_id (KNormal q o) =? SEQUENTIAL_ATTRIBUTE_ENCODER_GENERIC_) with false.
+      change (kind_id (KNormal q o) =? SEQUENTIAL_ATTRIBUTE_ENCODER_INTEGER_) with false.
+      change (kind_id (KNormal q o) =? SEQUENTIAL_ATTRIBUTE_ENCODER_NORMALS_) with true. cbv iota.
+      destruct (normal_pts a) as [pts|] eqn:Ep; [|discriminate].
+      destruct (normal_pts_ok np a pts Hok Ep) as (q' & o' & b & Ek' & Hnc3 & Hdt32 & Eg & Hb & Hl & Hcan).
+      rewrite Ek in Ek'. injection Ek' as <- <-.
+      assert (Hq : 2 <= q <= 30).
+      { unfold set_quantization_bits in Hb. destruct ((q <? 2) || (q >? 30)) eqn:E; [discriminate|lia]. }
+      unfold oct_encode_parameters in He. destruct (q =? -1) eqn:Eq1; [lia|]. apply Some_inj in He. subst ts.
+      rewrite (Z.mod_small q 256) by lia. cbn [app oct_decode_parameters].
+      unfold portable_rows. rewrite Ek, Ep.
+      rewrite map_map. rewrite (map_ext _ (fun p => p) pt_row_id), map_id.
+      unfold oct_inverse_transform. rewrite Hb. reflexivity.
   Qed.
 
   (** when the symbol coder's guard is implied by the basic facts (at least one component, a non-empty
@@ -631,11 +720,20 @@ Section Atts.
   Lemma att_int_ok_basic np a : (forall nc syms, sym_guard_basic nc syms -> sym_guard' nc syms) ->
     att_ok np a -> (0 < np)%nat -> att_int_ok a.
   Proof.
-    intros Hb Hok Hnp o rows Ho Hp _. apply Hb.
-    destruct (portable_rows_shape np a rows Hok Hp) as [Hl Hsh].
-    pose proof Hok as ((_ & _ & Hnc & _) & _).
-    apply int_block_syms_basic; [unfold att_nc; lia| |exact Hsh].
-    destruct rows; [cbn in Hl; lia|congruence].
+    intros Hb Hok Hnp. unfold att_int_ok.
+    assert (Hgen : (forall q o, a_kind a <> KNormal q o) -> forall o rows, att_opts a = Some o -> portable_rows a = Some rows ->
+              io_builtin o = true -> sym_guard' (Z.of_nat (att_nc a)) (int_block_syms o (att_nc a) rows)).
+    { intros Hnn o rows Ho Hp _. apply Hb.
+      destruct (portable_rows_shape np a rows Hok Hnn Hp) as [Hl Hsh].
+      pose proof Hok as ((_ & _ & Hnc & _) & _).
+      apply int_block_syms_basic; [unfold att_nc; lia| |exact Hsh].
+      destruct rows; [cbn in Hl; lia|congruence]. }
+    destruct (a_kind a) as [|o|q ex o|q o] eqn:Ek; try (apply Hgen; congruence).
+    intros pts Hp _. apply Hb.
+    destruct (normal_pts_ok np a pts Hok Hp) as (q' & o' & b & Ek' & _ & _ & _ & Hbq & Hl & Hcan).
+    rewrite Ek in Ek'. injection Ek' as <- <-.
+    apply (norm_block_syms_basic o q b pts); [|exact Hbq|exact Hcan].
+    destruct pts; [cbn in Hl; lia|congruence].
   Qed.
 
   Definition desc_kinds (atts : list attribute) : list (att_desc * Z) :=
@@ -648,7 +746,7 @@ Section Atts.
   Theorem all_values_roundtrip np : forall atts vs tail, Forall (att_ok np) atts ->
     ((0 < np)%nat \/ Forall (fun a => a_kind a = KGeneric) atts) -> Forall att_int_ok atts ->
     ocat (enc_values enc_syms) atts = Some vs ->
-    dec_all_values dec_syms np (desc_kinds atts) (vs ++ tail) = Some (map dec_rows atts, tail).
+    dec_all_values dec_syms ver np (desc_kinds atts) (vs ++ tail) = Some (map dec_rows atts, tail).
   Proof.
     induction atts as [|a atts IH]; intros vs tail Hok Hnp Hint He; cbn [ocat] in He.
     - injection He as <-. reflexivity.
@@ -684,11 +782,12 @@ Section Atts.
 
   Lemma kinds_valid atts :
     forallb (fun k => (k =? SEQUENTIAL_ATTRIBUTE_ENCODER_GENERIC_) || (k =? SEQUENTIAL_ATTRIBUTE_ENCODER_INTEGER_)
-                      || (k =? SEQUENTIAL_ATTRIBUTE_ENCODER_QUANTIZATION_)) (map (fun a => kind_id (a_kind a)) atts) = true.
+                      || (k =? SEQUENTIAL_ATTRIBUTE_ENCODER_QUANTIZATION_) || (k =? SEQUENTIAL_ATTRIBUTE_ENCODER_NORMALS_))
+            (map (fun a => kind_id (a_kind a)) atts) = true.
   Proof. induction atts as [|a atts IH]; [reflexivity|]. cbn [map forallb]. rewrite IH. destruct (a_kind a); reflexivity. Qed.
 
   Theorem attributes_roundtrip np atts bs rest : atts_ok np atts -> enc_attributes enc_syms atts = Some bs ->
-    dec_attributes dec_syms (fun _ => false) np (bs ++ rest) = Some (map expected_att atts, rest).
+    dec_attributes dec_syms (fun _ => false) ver np (bs ++ rest) = Some (map expected_att atts, rest).
   Proof.
     intros (Hn & Hok & Hint & Hnp) He. unfold enc_attributes in He.
     destruct atts as [|a0 atts0].
@@ -769,7 +868,7 @@ Section Streams.
     rewrite (md_opt_roundtrip md mb _ Hmd Em).
     rewrite (le_roundtrips 4 (np mod 2 ^ 32) _ _ (u32_range np) eq_refl).
     rewrite (Z.mod_small np) by lia.
-    rewrite (attributes_roundtrip enc_syms dec_syms sym_guard' sym_law (Z.to_nat np) atts ab rest Hatts Ea).
+    rewrite (attributes_roundtrip _ enc_syms dec_syms sym_guard' sym_law (Z.to_nat np) atts ab rest Hatts Ea).
     reflexivity.
   Qed.
 
@@ -811,7 +910,7 @@ Section Streams.
         intros body Hb. specialize (Hguard body ab Hb eq_refl). rewrite app_length. lia.
       - apply (connectivity_roundtrip_raw enc_syms dec_syms np faces cb); assumption. }
     rewrite Hc.
-    rewrite (attributes_roundtrip enc_syms dec_syms sym_guard' sym_law (Z.to_nat np) atts ab rest Hatts Ea).
+    rewrite (attributes_roundtrip _ enc_syms dec_syms sym_guard' sym_law (Z.to_nat np) atts ab rest Hatts Ea).
     reflexivity.
   Qed.
 
@@ -910,26 +1009,54 @@ Section Valid.
     dec_syms n nc bs = Some (syms, r) -> length syms = n.
   Variable skip : Z -> bool.
 
-  Lemma dec_values_shape np d kid bs rows r : dec_values dec_syms np d kid bs = Some (rows, r) ->
-    rows_shape np (Z.to_nat (ad_nc d)) rows.
+  (** the shape of the portable rows of one attribute: [np] rows of the attribute's component count — of 2
+      octahedral coordinates for quantized normals (whose decoder insists on a 3-component attribute) *)
+  Definition portable_shape (np : nat) (d : att_desc) (kid : Z) (rows : list (list Z)) : Prop :=
+    if kid =? SEQUENTIAL_ATTRIBUTE_ENCODER_NORMALS_ then rows_shape np 2 rows /\ ad_nc d = 3
+    else rows_shape np (Z.to_nat (ad_nc d)) rows.
+
+  Lemma dec_values_shape ver np d kid bs rows r : dec_values dec_syms ver np d kid bs = Some (rows, r) ->
+    portable_shape np d kid rows.
   Proof.
-    unfold dec_values, rows_shape. intros H.
-    destruct (kid =? SEQUENTIAL_ATTRIBUTE_ENCODER_GENERIC_); [apply (dec_generic_shape _ _ _ _ _ _ H)|].
-    destruct (kid =? SEQUENTIAL_ATTRIBUTE_ENCODER_INTEGER_); [apply (dec_int_block_shape dec_syms sym_len _ _ _ _ _ H)|].
-    destruct (kid =? SEQUENTIAL_ATTRIBUTE_ENCODER_QUANTIZATION_); [|discriminate].
-    destruct (ad_dt d =? DT_FLOAT32_); [|discriminate]. apply (dec_int_block_shape dec_syms sym_len _ _ _ _ _ H).
+    unfold dec_values, portable_shape, rows_shape. intros H.
+    destruct (kid =? SEQUENTIAL_ATTRIBUTE_ENCODER_GENERIC_) eqn:E0.
+    { replace (kid =? SEQUENTIAL_ATTRIBUTE_ENCODER_NORMALS_) with false by (unfold SEQUENTIAL_ATTRIBUTE_ENCODER_GENERIC_, SEQUENTIAL_ATTRIBUTE_ENCODER_NORMALS_ in *; lia).
+      apply (dec_generic_shape _ _ _ _ _ _ H). }
+    destruct (kid =? SEQUENTIAL_ATTRIBUTE_ENCODER_INTEGER_) eqn:E1.
+    { replace (kid =? SEQUENTIAL_ATTRIBUTE_ENCODER_NORMALS_) with false by (unfold SEQUENTIAL_ATTRIBUTE_ENCODER_INTEGER_, SEQUENTIAL_ATTRIBUTE_ENCODER_NORMALS_ in *; lia).
+      apply (dec_int_block_shape dec_syms sym_len _ _ _ _ _ H). }
+    destruct (kid =? SEQUENTIAL_ATTRIBUTE_ENCODER_QUANTIZATION_) eqn:E2.
+    { replace (kid =? SEQUENTIAL_ATTRIBUTE_ENCODER_NORMALS_) with false by (unfold SEQUENTIAL_ATTRIBUTE_ENCODER_QUANTIZATION_, SEQUENTIAL_ATTRIBUTE_ENCODER_NORMALS_ in *; lia).
+      destruct (ad_dt d =? DT_FLOAT32_); [|discriminate]. apply (dec_int_block_shape dec_syms sym_len _ _ _ _ _ H). }
+    destruct (kid =? SEQUENTIAL_ATTRIBUTE_ENCODER_NORMALS_); [|discriminate].
+    destruct ((ad_nc d =? 3) && (ad_dt d =? DT_FLOAT32_)) eqn:E3; [|discriminate].
+    destruct (dec_norm_block dec_syms ver np bs) as [[pts r']|] eqn:En; [|discriminate]. injection H as <- _.
+    split; [|lia]. split; [rewrite map_length; apply (dec_norm_block_len dec_syms sym_len _ _ _ _ _ En)|].
+    apply Forall_forall. intros row Hr. apply in_map_iff in Hr. destruct Hr as (p & <- & _). reflexivity.
   Qed.
 
-  Lemma finish_att_valid np d kid rows bs a r : rows_shape np (Z.to_nat (ad_nc d)) rows ->
+  Lemma finish_att_valid np d kid rows bs a r : portable_shape np d kid rows ->
     finish_att skip d kid rows bs = Some (a, r) -> att_valid np a.
   Proof.
-    intros Hs H. unfold finish_att in H. unfold att_valid.
-    destruct (kid =? SEQUENTIAL_ATTRIBUTE_ENCODER_GENERIC_).
-    { injection H as <- _. exact Hs. }
-    destruct (kid =? SEQUENTIAL_ATTRIBUTE_ENCODER_INTEGER_).
-    { destruct (skip (ad_type d)).
+    intros Hs H. unfold finish_att in H. unfold att_valid. unfold portable_shape in Hs.
+    destruct (kid =? SEQUENTIAL_ATTRIBUTE_ENCODER_GENERIC_) eqn:E0.
+    { replace (kid =? SEQUENTIAL_ATTRIBUTE_ENCODER_NORMALS_) with false in Hs by (unfold SEQUENTIAL_ATTRIBUTE_ENCODER_GENERIC_, SEQUENTIAL_ATTRIBUTE_ENCODER_NORMALS_ in *; lia).
+      injection H as <- _. exact Hs. }
+    destruct (kid =? SEQUENTIAL_ATTRIBUTE_ENCODER_INTEGER_) eqn:E1.
+    { replace (kid =? SEQUENTIAL_ATTRIBUTE_ENCODER_NORMALS_) with false in Hs by (unfold SEQUENTIAL_ATTRIBUTE_ENCODER_INTEGER_, SEQUENTIAL_ATTRIBUTE_ENCODER_NORMALS_ in *; lia).
+      destruct (skip (ad_type d)).
       - injection H as <- _. cbn [da_desc da_rows ad_nc]. apply rows_shape_map. exact Hs.
       - destruct (dt_is_int (ad_dt d)); [|discriminate]. injection H as <- _. cbn [da_desc da_rows]. apply rows_shape_map. exact Hs. }
+    destruct (kid =? SEQUENTIAL_ATTRIBUTE_ENCODER_NORMALS_).
+    { destruct Hs as [Hs Hnc]. destruct (oct_decode_parameters bs) as [[q r']|]; [|discriminate].
+      destruct (skip (ad_type d)).
+      - injection H as <- _. cbn [da_desc da_rows ad_nc]. change (Z.to_nat 2) with 2%nat. apply rows_shape_map. exact Hs.
+      - destruct (oct_inverse_transform q _) as [vs| |] eqn:Ei; try discriminate. injection H as <- _. cbn [da_desc da_rows].
+        rewrite Hnc. change (Z.to_nat 3) with 3%nat. unfold oct_inverse_transform in Ei.
+        destruct (set_quantization_bits q) as [b|]; [|discriminate]. injection Ei as <-.
+        destruct Hs as [Hl _]. split; [rewrite !map_length; exact Hl|].
+        apply Forall_forall. intros row Hr. apply in_map_iff in Hr. destruct Hr as (v & <- & _).
+        destruct v as [[x y] z]. reflexivity. }
     destruct (decode_parameters _ bs) as [[p r']|]; [|discriminate].
     destruct (skip (ad_type d)).
     - injection H as <- _. cbn [da_desc da_rows ad_nc]. apply rows_shape_map. exact Hs.
@@ -937,17 +1064,17 @@ Section Valid.
       apply (rows_shape_floats _ _ _ _ (rows_shape_map _ _ _ _ Hs) (inverse_transform_shape _ _ _ Ei)).
   Qed.
 
-  Lemma dec_all_values_shape np : forall ds bs rowss r, dec_all_values dec_syms np ds bs = Some (rowss, r) ->
-    Forall2 (fun dk rows => rows_shape np (Z.to_nat (ad_nc (fst dk))) rows) ds rowss.
+  Lemma dec_all_values_shape ver np : forall ds bs rowss r, dec_all_values dec_syms ver np ds bs = Some (rowss, r) ->
+    Forall2 (fun dk rows => portable_shape np (fst dk) (snd dk) rows) ds rowss.
   Proof.
     induction ds as [|[d kid] ds IH]; intros bs rowss r H; cbn [dec_all_values] in H.
     - injection H as <- _. constructor.
-    - destruct (dec_values dec_syms np d kid bs) as [[rows r1]|] eqn:Ev; [|discriminate].
-      destruct (dec_all_values dec_syms np ds r1) as [[l r2]|] eqn:Ea; [|discriminate].
-      injection H as <- _. constructor; [apply (dec_values_shape _ _ _ _ _ _ Ev)|apply (IH _ _ _ Ea)].
+    - destruct (dec_values dec_syms ver np d kid bs) as [[rows r1]|] eqn:Ev; [|discriminate].
+      destruct (dec_all_values dec_syms ver np ds r1) as [[l r2]|] eqn:Ea; [|discriminate].
+      injection H as <- _. constructor; [apply (dec_values_shape _ _ _ _ _ _ _ Ev)|apply (IH _ _ _ Ea)].
   Qed.
 
-  Lemma finish_all_valid np : forall ds rowss, Forall2 (fun dk rows => rows_shape np (Z.to_nat (ad_nc (fst dk))) rows) ds rowss ->
+  Lemma finish_all_valid np : forall ds rowss, Forall2 (fun dk rows => portable_shape np (fst dk) (snd dk) rows) ds rowss ->
     forall bs atts r, finish_all skip ds rowss bs = Some (atts, r) -> Forall (att_valid np) atts.
   Proof.
     induction 1 as [|[d kid] rows ds rowss Hs _ IH]; intros bs atts r H; cbn [finish_all] in H.
@@ -957,19 +1084,19 @@ Section Valid.
       injection H as <- _. constructor; [apply (finish_att_valid _ _ _ _ _ _ _ Hs Ef)|apply (IH _ _ _ Ea)].
   Qed.
 
-  Lemma dec_decoders_atts_valid np : forall dds bs atts r, dec_decoders_atts dec_syms skip np dds bs = Some (atts, r) ->
+  Lemma dec_decoders_atts_valid ver np : forall dds bs atts r, dec_decoders_atts dec_syms skip ver np dds bs = Some (atts, r) ->
     Forall (att_valid np) atts.
   Proof.
     induction dds as [|ds dds IH]; intros bs atts r H; cbn [dec_decoders_atts] in H.
     - injection H as <- _. constructor.
-    - destruct (dec_all_values dec_syms np ds bs) as [[rowss r1]|] eqn:Ev; [|discriminate].
+    - destruct (dec_all_values dec_syms ver np ds bs) as [[rowss r1]|] eqn:Ev; [|discriminate].
       destruct (finish_all skip ds rowss r1) as [[atts1 r2]|] eqn:Ef; [|discriminate].
-      destruct (dec_decoders_atts dec_syms skip np dds r2) as [[l r3]|] eqn:Ed; [|discriminate].
+      destruct (dec_decoders_atts dec_syms skip ver np dds r2) as [[l r3]|] eqn:Ed; [|discriminate].
       injection H as <- _. apply Forall_app. split; [|apply (IH _ _ _ Ed)].
-      apply (finish_all_valid np ds rowss (dec_all_values_shape _ _ _ _ _ Ev) _ _ _ Ef).
+      apply (finish_all_valid np ds rowss (dec_all_values_shape _ _ _ _ _ _ Ev) _ _ _ Ef).
   Qed.
 
-  Theorem dec_attributes_valid np bs atts r : dec_attributes dec_syms skip np bs = Some (atts, r) -> Forall (att_valid np) atts.
+  Theorem dec_attributes_valid ver np bs atts r : dec_attributes dec_syms skip ver np bs = Some (atts, r) -> Forall (att_valid np) atts.
   Proof.
     unfold dec_attributes. destruct bs as [|nd r0]; [discriminate|].
     destruct (dec_decoders_data _ r0) as [[dds r1]|]; [|discriminate]. apply dec_decoders_atts_valid.
@@ -1000,8 +1127,8 @@ Section Valid.
     do 4 (match type of H with (if ?c then None else _) = _ => destruct c; [discriminate|] end).
     match type of H with match ?x with _ => _ end = _ => destruct x as [[md r1]|]; [|discriminate] end.
     destruct (dec_le 4 r1) as [[np r2]|]; [|discriminate].
-    destruct (dec_attributes dec_syms skip (Z.to_nat np) r2) as [[atts r3]|] eqn:Ea; [|discriminate].
-    injection H as <- _. cbn [dp_npoints dp_atts]. apply (dec_attributes_valid _ _ _ _ Ea).
+    destruct (dec_attributes dec_syms skip _ (Z.to_nat np) r2) as [[atts r3]|] eqn:Ea; [|discriminate].
+    injection H as <- _. cbn [dp_npoints dp_atts]. apply (dec_attributes_valid _ _ _ _ _ Ea).
   Qed.
 
   (** C03 for the sequential mesh decoder: every face index names a decoded point, every attribute is well shaped *)
@@ -1013,9 +1140,9 @@ Section Valid.
     do 4 (match type of H with (if ?c then None else _) = _ => destruct c; [discriminate|] end).
     match type of H with match ?x with _ => _ end = _ => destruct x as [[md r1]|]; [|discriminate] end.
     destruct (dec_connectivity dec_syms r1) as [[[np faces] r2]|] eqn:Ec; [|discriminate].
-    destruct (dec_attributes dec_syms skip (Z.to_nat np) r2) as [[atts r3]|] eqn:Ea; [|discriminate].
+    destruct (dec_attributes dec_syms skip _ (Z.to_nat np) r2) as [[atts r3]|] eqn:Ea; [|discriminate].
     injection H as <- _. cbn [dm_npoints dm_atts dm_faces].
-    split; [apply (dec_connectivity_valid _ _ _ _ Ec)|apply (dec_attributes_valid _ _ _ _ Ea)].
+    split; [apply (dec_connectivity_valid _ _ _ _ Ec)|apply (dec_attributes_valid _ _ _ _ _ Ea)].
   Qed.
 End Valid.
 
@@ -1029,9 +1156,18 @@ Definition portable_desc (d : att_desc) : att_desc :=
     attribute is the int32 portable attribute, whose conversion gives exactly the normal values.  A skipped
     quantized attribute holds the quantized words and the transform parameters, and InverseTransformAttribute
     of those gives exactly the normal values. *)
+Definition portable_desc_n (d : att_desc) : att_desc :=
+  {| ad_type := ad_type d; ad_dt := DT_INT32_; ad_nc := 2; ad_norm := false; ad_uid := ad_uid d |}.
+
 Definition att_refines (skip : Z -> bool) (a0 a : dec_att) : Prop :=
   da_kind_id a = da_kind_id a0 /\
   if (da_kind_id a0 =? SEQUENTIAL_ATTRIBUTE_ENCODER_GENERIC_) || negb (skip (ad_type (da_desc a0))) then a = a0
+  else if da_kind_id a0 =? SEQUENTIAL_ATTRIBUTE_ENCODER_NORMALS_ then
+    (* a skipped normal attribute: the 2-component int32 portable attribute (its memory words) holding the octahedral
+       (s,t) points, and the quantization bits; InverseTransformAttribute of those points gives exactly the normal decode *)
+    da_desc a = portable_desc_n (da_desc a0) /\ da_tdata a = None /\ da_oct a0 = None /\
+    exists q rows0 vs, da_oct a = Some q /\ da_rows a = map (map (fun v => v mod 2 ^ 32)) rows0 /\
+                       oct_inverse_transform q (map pt_of_row rows0) = Ok vs /\ da_rows a0 = map vec3_bits vs
   else
     da_desc a = portable_desc (da_desc a0) /\ da_tdata a0 = None /\
     if da_kind_id a0 =? SEQUENTIAL_ATTRIBUTE_ENCODER_INTEGER_ then
@@ -1057,23 +1193,34 @@ Section Skip.
   Lemma finish_att_refines d kid rows bs a0 r : finish_att (fun _ => false) d kid rows bs = Some (a0, r) ->
     exists a, finish_att skip d kid rows bs = Some (a, r) /\ att_refines skip a0 a.
   Proof.
-    unfold finish_att. cbv beta. fold (portable_desc d).
+    unfold finish_att. cbv beta. fold (portable_desc d). fold (portable_desc_n d).
     destruct (kid =? SEQUENTIAL_ATTRIBUTE_ENCODER_GENERIC_) eqn:E0.
     { intros H. injection H as <- <-. eexists; split; [reflexivity|].
       unfold att_refines. cbn [da_kind_id da_desc]. rewrite E0. cbn [orb]. split; reflexivity. }
     destruct (kid =? SEQUENTIAL_ATTRIBUTE_ENCODER_INTEGER_) eqn:E1.
-    { destruct (dt_is_int (ad_dt d)) eqn:Ei; [|intros; discriminate]. intros H. injection H as <- <-.
+    { assert (E3 : (kid =? SEQUENTIAL_ATTRIBUTE_ENCODER_NORMALS_) = false)
+        by (unfold SEQUENTIAL_ATTRIBUTE_ENCODER_INTEGER_, SEQUENTIAL_ATTRIBUTE_ENCODER_NORMALS_ in *; lia).
+      destruct (dt_is_int (ad_dt d)) eqn:Ei; [|intros; discriminate]. intros H. injection H as <- <-.
       destruct (skip (ad_type d)) eqn:Es; (eexists; split; [reflexivity|]);
         unfold att_refines; cbn [da_kind_id da_desc da_rows da_tdata]; rewrite E0, Es; cbn [orb negb].
-      - rewrite E1. split; [reflexivity|]. split; [reflexivity|]. split; [reflexivity|]. split; [reflexivity|].
+      - rewrite E3, E1. split; [reflexivity|]. split; [reflexivity|]. split; [reflexivity|]. split; [reflexivity|].
         rewrite map_map. apply map_ext. intros row. rewrite map_map. apply map_ext. intros v. apply of_int32_mod. exact Ei.
+      - split; reflexivity. }
+    destruct (kid =? SEQUENTIAL_ATTRIBUTE_ENCODER_NORMALS_) eqn:E3.
+    { destruct (oct_decode_parameters bs) as [[q r']|]; [|intros; discriminate].
+      destruct (oct_inverse_transform q _) as [vs| |] eqn:Einv; try (intros; discriminate).
+      intros H. injection H as <- <-.
+      destruct (skip (ad_type d)) eqn:Es; (eexists; split; [reflexivity|]);
+        unfold att_refines; cbn [da_kind_id da_desc da_rows da_tdata da_oct]; rewrite E0, Es; cbn [orb negb].
+      - rewrite E3. split; [reflexivity|]. split; [reflexivity|]. split; [reflexivity|]. split; [reflexivity|].
+        exists q, rows, vs. split; [reflexivity|]. split; [reflexivity|]. split; [exact Einv|reflexivity].
       - split; reflexivity. }
     destruct (decode_parameters _ bs) as [[p r']|]; [|intros; discriminate].
     destruct (inverse_transform p _) as [fr| |] eqn:Einv; try (intros; discriminate).
     intros H. injection H as <- <-.
     destruct (skip (ad_type d)) eqn:Es; (eexists; split; [reflexivity|]);
       unfold att_refines; cbn [da_kind_id da_desc da_rows da_tdata]; rewrite E0, Es; cbn [orb negb].
-    - rewrite E1. split; [reflexivity|]. split; [reflexivity|]. split; [reflexivity|].
+    - rewrite E3, E1. split; [reflexivity|]. split; [reflexivity|]. split; [reflexivity|].
       exists p, fr. split; [reflexivity|]. split; [exact Einv|reflexivity].
     - split; reflexivity.
   Qed.
@@ -1091,22 +1238,22 @@ Section Skip.
       rewrite Ea', El. eexists; split; [reflexivity|constructor; assumption].
   Qed.
 
-  Lemma dec_decoders_atts_refines np : forall dds bs atts0 r,
-    dec_decoders_atts dec_syms (fun _ => false) np dds bs = Some (atts0, r) ->
-    exists atts, dec_decoders_atts dec_syms skip np dds bs = Some (atts, r) /\ Forall2 (att_refines skip) atts0 atts.
+  Lemma dec_decoders_atts_refines ver np : forall dds bs atts0 r,
+    dec_decoders_atts dec_syms (fun _ => false) ver np dds bs = Some (atts0, r) ->
+    exists atts, dec_decoders_atts dec_syms skip ver np dds bs = Some (atts, r) /\ Forall2 (att_refines skip) atts0 atts.
   Proof.
     induction dds as [|ds dds IH]; intros bs atts0 r H; cbn [dec_decoders_atts] in *.
     - injection H as <- <-. exists []. split; [reflexivity|constructor].
-    - destruct (dec_all_values dec_syms np ds bs) as [[rowss r1]|]; [|discriminate].
+    - destruct (dec_all_values dec_syms ver np ds bs) as [[rowss r1]|]; [|discriminate].
       destruct (finish_all (fun _ => false) ds rowss r1) as [[a0 r2]|] eqn:Ef; [|discriminate].
-      destruct (dec_decoders_atts dec_syms (fun _ => false) np dds r2) as [[l0 r3]|] eqn:Ed; [|discriminate].
+      destruct (dec_decoders_atts dec_syms (fun _ => false) ver np dds r2) as [[l0 r3]|] eqn:Ed; [|discriminate].
       injection H as <- <-.
       destruct (finish_all_refines _ _ _ _ _ Ef) as (a & Ea & Ha). destruct (IH _ _ _ Ed) as (l & El & Hl).
       rewrite Ea, El. eexists; split; [reflexivity|apply Forall2_app; assumption].
   Qed.
 
-  Lemma dec_attributes_refines np bs atts0 r : dec_attributes dec_syms (fun _ => false) np bs = Some (atts0, r) ->
-    exists atts, dec_attributes dec_syms skip np bs = Some (atts, r) /\ Forall2 (att_refines skip) atts0 atts.
+  Lemma dec_attributes_refines ver np bs atts0 r : dec_attributes dec_syms (fun _ => false) ver np bs = Some (atts0, r) ->
+    exists atts, dec_attributes dec_syms skip ver np bs = Some (atts, r) /\ Forall2 (att_refines skip) atts0 atts.
   Proof.
     unfold dec_attributes. destruct bs as [|nd r0]; [discriminate|].
     destruct (dec_decoders_data _ r0) as [[dds r1]|]; [|discriminate]. apply dec_decoders_atts_refines.
@@ -1125,9 +1272,9 @@ Section Skip.
     do 4 (match goal with |- (if ?c then None else _) = _ -> _ => destruct c; [intros; discriminate|] end).
     match goal with |- match ?x with _ => _ end = _ -> _ => destruct x as [[md r1]|]; [|intros; discriminate] end.
     destruct (dec_le 4 r1) as [[np r2]|]; [|intros; discriminate].
-    destruct (dec_attributes dec_syms (fun _ => false) (Z.to_nat np) r2) as [[atts0 r3]|] eqn:Ea; [|intros; discriminate].
+    destruct (dec_attributes dec_syms (fun _ => false) _ (Z.to_nat np) r2) as [[atts0 r3]|] eqn:Ea; [|intros; discriminate].
     intros H. injection H as <- <-.
-    destruct (dec_attributes_refines _ _ _ _ Ea) as (atts & E & HR). rewrite E.
+    destruct (dec_attributes_refines _ _ _ _ _ Ea) as (atts & E & HR). rewrite E.
     eexists; split; [reflexivity|]. cbn [dp_npoints dp_md dp_atts]. repeat split; [exact HR].
   Qed.
 
@@ -1141,9 +1288,9 @@ Section Skip.
     do 4 (match goal with |- (if ?c then None else _) = _ -> _ => destruct c; [intros; discriminate|] end).
     match goal with |- match ?x with _ => _ end = _ -> _ => destruct x as [[md r1]|]; [|intros; discriminate] end.
     destruct (dec_connectivity dec_syms r1) as [[[np faces] r2]|]; [|intros; discriminate].
-    destruct (dec_attributes dec_syms (fun _ => false) (Z.to_nat np) r2) as [[atts0 r3]|] eqn:Ea; [|intros; discriminate].
+    destruct (dec_attributes dec_syms (fun _ => false) _ (Z.to_nat np) r2) as [[atts0 r3]|] eqn:Ea; [|intros; discriminate].
     intros H. injection H as <- <-.
-    destruct (dec_attributes_refines _ _ _ _ Ea) as (atts & E & HR). rewrite E.
+    destruct (dec_attributes_refines _ _ _ _ _ Ea) as (atts & E & HR). rewrite E.
     eexists; split; [reflexivity|]. cbn [dm_npoints dm_md dm_faces dm_atts]. repeat split; [exact HR].
   Qed.
 
@@ -1157,3 +1304,30 @@ Section Skip.
     split; [discriminate|reflexivity].
   Qed.
 End Skip.
+
+(** * Quantized normals, spelled out *)
+
+(** what [expected_rows] is for a normal attribute that encodes: the bit patterns of InverseTransformAttribute on the
+    octahedral points GeneratePortableAttribute produced (how close they are to the input is property C07) *)
+Theorem expected_rows_normal np a q o : att_ok np a -> a_kind a = KNormal q o -> normal_pts a <> None ->
+  exists pts vs, oct_generate_portable q (map vec3_of_row (a_rows a)) = Ok pts /\
+                 oct_inverse_transform q pts = Ok vs /\ length vs = np /\ expected_rows a = map vec3_bits vs.
+Proof.
+  intros Hok Ek Hne. destruct (normal_pts a) as [pts|] eqn:Ep; [|congruence].
+  destruct (normal_pts_ok np a pts Hok Ep) as (q' & o' & b & Ek' & _ & _ & Eg & Hb & Hl & _).
+  rewrite Ek in Ek'. injection Ek' as <- <-.
+  exists pts, (map (fun p => quantized_oct_to_unit_vector b (fst p) (snd p)) pts).
+  split; [exact Eg|]. unfold expected_rows. rewrite Ek, Ep. unfold oct_inverse_transform. rewrite Hb.
+  split; [reflexivity|]. split; [rewrite map_length; exact Hl|reflexivity].
+Qed.
+
+(** what [att_refines] says for a skipped normal attribute *)
+Theorem skipped_normal_reproduces skip a0 a : att_refines skip a0 a ->
+  da_kind_id a0 = SEQUENTIAL_ATTRIBUTE_ENCODER_NORMALS_ -> skip (ad_type (da_desc a0)) = true ->
+  ad_uid (da_desc a) = ad_uid (da_desc a0) /\ ad_type (da_desc a) = ad_type (da_desc a0) /\ ad_nc (da_desc a) = 2 /\
+  exists q rows0 vs, da_oct a = Some q /\ da_rows a = map (map (fun v => v mod 2 ^ 32)) rows0 /\
+                     oct_inverse_transform q (map pt_of_row rows0) = Ok vs /\ da_rows a0 = map vec3_bits vs.
+Proof.
+  intros [Hk H] Hq Hs. rewrite Hq, Hs in H. cbn in H. destruct H as (Hd & _ & _ & H).
+  rewrite Hd. repeat split; exact H.
+Qed.
